@@ -172,3 +172,26 @@ Proof.
   cbv iota. split; [|vm_compute; repeat split; reflexivity].
   intros es He. vm_compute in He. injection He as <-. repeat constructor; cbn; discriminate.
 Qed.
+
+(** ** the REMOVED copy (bounded): {[#A][#B]}.{#A=C[C;k=v][!],#B=[!][C;k=w;0.5]C} - the two definitions annotate the shared
+    atom differently.  The merged atom (returned key 4) lists both coarse nodes and keeps the SURVIVOR's values (k = v, the
+    default weight of A's atom); B's k = w and weight 0.5 are not transferred.  Model and implementation agree on this
+    (observed on /repo); which value a shared atom should carry is not fixed by the property: outside the statement. *)
+Definition tmpl_of (name text : pystr) : res graph :=
+  '(clean, d, e, a) <- strip_bonding_descriptors tp_fo text ;;
+  G <- smiles_parse clean ;;
+  read_fragment_post (nx_of G) name (map (fun kv => (Z.of_nat (fst kv), VList (map VStr (snd kv)))) d) [] (ann_list a).
+Definition rc_fd : res fragdict :=
+  TA <- tmpl_of (S "A") (S "C[C;k=v][!]") ;; TB <- tmpl_of (S "B") (S "[!][C;k=w;0.5]C") ;; Ok [(S "A", TA); (S "B", TB)].
+Definition rc_base : graph := [ {| nk := 0; na := [(S "fragname", VStr (S "A"))]; nadj := [(1, [(S "order", VInt 1)])] |};
+                                {| nk := 1; na := [(S "fragname", VStr (S "B"))]; nadj := [(0, [(S "order", VInt 1)])] |} ].
+Example squashed_removed_copy_small :
+  (fd <- rc_fd ;;
+   '(m1, fg1) <- resolve_disconnected fd rc_base ;; '(m2, _) <- bonding_step true true rc_base m1 fg1 ;; m3 <- Squash.squash_atoms m2 ;;
+   fo <- resolve_step_full true true fd rc_base (Some m3) ;;
+   Ok (map (fun n => (nk n, aget (S "fragid") (na n), aget (S "k") (na n), aget (S "weight") (na n)))
+           (filter (fun n => match aget (S "element") (na n) with Some (VStr e) => negb (str_eqb e (S "H")) | _ => true end) (fo_mol fo))))
+  = Ok [(0, Some (VList [VInt 0]), None, Some (VInt 1));
+        (4, Some (VList [VInt 0; VInt 1]), Some (VStr (S "v")), Some (VFlt (S "1.0")));
+        (7, Some (VList [VInt 1]), None, Some (VInt 1))].
+Proof. vm_compute. reflexivity. Qed.
